@@ -48,9 +48,37 @@ def random_breaks(breaks: int, n: int) -> A[i8, 2]:
 # meaning (neighbourhood symmetry) is also what the exhaustive detailed-balance check decides.
 
 
-@contract("mchap.assemble.structural.haplotype_segment_labels", trusted=True, props=["C01", "C09"])
+@contract("mchap.assemble.structural._label_haplotypes", machine_ints=True, props=["C01", "C09"])
+def _label_haplotypes(labels: A[i1, 1], genotype: A[i1, 2], interval: Opt[A[i8, 1]]):
+    requires(len(labels) == len(genotype), len(genotype) >= 1, len(genotype) <= 127)
+    requires(implies(interval is not None, len(interval) == 2 and 0 <= interval[0] and interval[1] <= genotype.shape[1]))
+    modifies(labels)
+    # every label is the index of a haplotype at or before the labelled one
+    ensures(forall(0, len(genotype), lambda h: 0 <= labels[h] and labels[h] <= h))
+    with loop(0):
+        invariant(ploidy == len(genotype), n_base == genotype.shape[1], len(labels) == ploidy)
+        invariant(forall(0, ploidy, lambda h: 0 <= labels[h] and labels[h] <= h))
+    with loop(1):
+        invariant(1 <= j, j <= ploidy, forall(0, ploidy, lambda h: 0 <= labels[h] and labels[h] <= h))
+    with loop(2):
+        invariant(j + 1 <= k, k <= ploidy, forall(0, ploidy, lambda h: 0 <= labels[h] and labels[h] <= h))
+
+
+@contract("mchap.assemble.structural._interval_inverse_mask", machine_ints=True, props=["C01", "C09"])
+def _interval_inverse_mask(interval: Opt[A[i8, 1]], n: int) -> A[b1, 1]:
+    requires(n >= 0, implies(interval is not None, len(interval) == 2 and 0 <= interval[0] and interval[1] <= n))
+    ensures(len(result) == n)
+    # True exactly outside the interval
+    ensures(forall(0, n, lambda c: result[c] == (interval is not None and not (LO <= c and c < HI))))
+    with defs():
+        LO = ite(interval is None, 0, interval[0])
+        HI = ite(interval is None, 0, interval[1])
+
+
+@contract("mchap.assemble.structural.haplotype_segment_labels", machine_ints=True, props=["C01", "C09"])
 def haplotype_segment_labels(genotype: A[i1, 2], interval: Opt[A[i8, 1]]) -> A[i1, 2]:
     requires(len(genotype) >= 1, len(genotype) <= 127)
+    requires(implies(interval is not None, len(interval) == 2 and 0 <= interval[0] and interval[1] <= genotype.shape[1]))
     ensures(result.shape == (len(genotype), 2))
     ensures(forall(0, len(genotype), lambda h: 0 <= result[h, 0] and result[h, 0] < len(genotype) and 0 <= result[h, 1] and result[h, 1] < len(genotype)))
 
@@ -350,8 +378,10 @@ def interval_step(genotype: A[i1, 2], reads: A[f8, 3], llk: float, log_unique_ha
         invariant(forall(0, i, lambda a: log_accept[a] == SMHLOG(real(llks[a]), real(llk), GPRIOR(option_labels[a], P, 2, log_unique_haplotypes, inbreeding), lprior, temp, ite(step_type == 0, RNOPT(option_labels[a], P), DNOPT(option_labels[a], P)), n_options)))
         invariant(implies(cache is not None, AMOK(cache, len(cache[0]), cache[0].shape[1], len(cache[1])) and cache[2] == P * N and forall(0, N, lambda y: NA[y] <= cache[0].shape[1])))
         invariant(implies(cache is not None, COH(cache, reads, CN, P, N, len(reads))))
+        with tail():
+            unfold(SMHLOG(real(llks[i]), real(llk), GPRIOR(option_labels[i], P, 2, log_unique_haplotypes, inbreeding), lprior, temp, ite(step_type == 0, RNOPT(option_labels[i], P), DNOPT(option_labels[i], P)), n_options))
+            assert_(log_accept[i] == SMHLOG(real(llks[i]), real(llk), GPRIOR(option_labels[i], P, 2, log_unique_haplotypes, inbreeding), lprior, temp, ite(step_type == 0, RNOPT(option_labels[i], P), DNOPT(option_labels[i], P)), n_options))
         with head():
-            unfold(SMHLOG(real(LLK(reads, CN, arr2(lambda x, y: SCE(old(genotype), option_labels[i, :, 0], LO, HI, x, y)), P, N, len(reads))), real(llk), GPRIOR(option_labels[i], P, 2, log_unique_haplotypes, inbreeding), lprior, temp, ite(step_type == 0, RNOPT(option_labels[i], P), DNOPT(option_labels[i], P)), n_options))
             GPI = arr2(lambda x, y: SCE(genotype, option_labels[i, :, 0], LO, HI, x, y))
             assert_(VALIDG(GPI, NA, P, N))
             instantiate(POSREADS(reads, CN, NA, P, N, len(reads)), GPI)
